@@ -438,3 +438,137 @@ class GetInitialObservationLoop(LoopContract):
                                                          z3.Select(z3.Select(O0, r), c))))),
                 ("aux-row-kept", z3.Select(O, ival(sig.N)) == z3.Select(O0, ival(sig.N))),
                 ("state-untouched", entry["tcell"].content == T)]
+
+
+# ---------------------------------------------------------------------------- array round trips (C09)
+
+def _flat_matches(arr, content2d):
+    """arr is the row-major flattening (assumed NumPy contract, ghost `flat_of`) of the 2-D content"""
+    fo = getattr(arr.cell, "flat_of", None) if isinstance(arr, NpArr) else None
+    if fo is None:
+        return z3.BoolVal(False)
+    return fo[0] == content2d
+
+
+class _RoundTrip(Contract):
+    callable_by_contract = False
+    bounded = False
+    tags = {"": ("C09", "C10")}
+    cls_q = None
+
+    def variants(self):
+        return ["from-2d", "from-flat"]
+
+    def _target(self, I):
+        return ClassRef(I.repo.cls(self.cls_q))
+
+
+@contract
+class ObservationFromNumpy(_RoundTrip):
+    """Observation.from_numpy followed by numpy() / numpy_flat() gives back the same content (2-D and 1-D input)"""
+    qualname = "nasim.envs.observation.Observation.from_numpy"
+    cls_q = "nasim.envs.observation.Observation"
+
+    def setup(self, I, variant):
+        sig, T, st, net, a = dyn_setup(I, None)
+        L = sig.layout()
+        N1 = ival(sig.N) + 1
+        O = z3.Const("O_src", A2)
+        src = NpArr(NpCell(O, (N1, L.W), fresh=False, label="o_array"))
+        if variant == "from-flat":
+            from pyvc import builtins as B_
+            arr = B_._m_flatten(I, src, [], {}, None)
+            arr.cell.fresh = False
+        else:
+            arr = src
+        S = Scope(sig=sig)
+        S.extra.update(O=O, variant=variant)
+        S.a = {"cls": self._target(I)}
+        shape = (mk(ival(sig.N), "int"), mk(L.W, "int"))
+        S.call_args = ([S.a["cls"], arr, shape], {})
+        return S
+
+    def ensures(self, I, S):
+        sig = S.sig
+        O = S.extra["O"]
+        obs = S.result
+        ok = isinstance(obs, Obj) and isinstance(obs.fields.get("tensor"), NpArr)
+        out = [("C09.from-numpy-returns-observation", z3.BoolVal(ok))]
+        if not ok:
+            return out
+        out.append(("C09.from-numpy-keeps-content", obs.fields["tensor"].content() == O))
+        # feed it back out through the public accessors
+        two_d = I.call_function(I.find_member(obs.cls, "numpy")[1], [obs], {})
+        flat = I.call_function(I.find_member(obs.cls, "numpy_flat")[1], [obs], {})
+        out.append(("C09.round-trip-2d", two_d.content() == O if isinstance(two_d, NpArr) else z3.BoolVal(False)))
+        out.append(("C09.round-trip-1d-is-row-major-flattening", _flat_matches(flat, O)))
+        return out
+
+
+@contract
+class StateFromNumpy(_RoundTrip):
+    qualname = "nasim.envs.state.State.from_numpy"
+    cls_q = "nasim.envs.state.State"
+
+    def setup(self, I, variant):
+        sig, T, st, net, a = dyn_setup(I, None)
+        L = sig.layout()
+        Tsrc = z3.Const("T_src", A2)
+        src = NpArr(NpCell(Tsrc, (ival(sig.N), L.W), fresh=False, label="s_array"))
+        if variant == "from-flat":
+            from pyvc import builtins as B_
+            arr = B_._m_flatten(I, src, [], {}, None)
+            arr.cell.fresh = False
+        else:
+            arr = src
+        S = Scope(sig=sig)
+        S.extra.update(O=Tsrc)
+        S.a = {"cls": self._target(I)}
+        shape = (mk(ival(sig.N), "int"), mk(L.W, "int"))
+        S.call_args = ([S.a["cls"], arr, shape, sig.host_num_map()], {})
+        return S
+
+    def ensures(self, I, S):
+        O = S.extra["O"]
+        st = S.result
+        ok = isinstance(st, Obj) and isinstance(st.fields.get("tensor"), NpArr)
+        out = [("C09.from-numpy-returns-state", z3.BoolVal(ok))]
+        if not ok:
+            return out
+        out.append(("C09.from-numpy-keeps-content", st.fields["tensor"].content() == O))
+        flat = I.call_function(I.find_member(st.cls, "numpy_flat")[1], [st], {})
+        out.append(("C09.round-trip-1d-is-row-major-flattening", _flat_matches(flat, O)))
+        return out
+
+
+@contract
+class ObservationNumpyFlat(Contract):
+    """the 1-D observation is the row-major flattening of the CURRENT 2-D tensor (also after it was written)"""
+    qualname = "nasim.envs.observation.Observation.numpy_flat"
+    callable_by_contract = False
+    bounded = False
+    tags = {"": ("C09", "C10")}
+
+    def setup(self, I, variant):
+        sig, T, st, net, a = dyn_setup(I, None)
+        obscls = I.repo.cls("nasim.envs.observation.Observation")
+        # built by the real constructor, then written to (as get_observation does)
+        shape = (mk(ival(sig.N), "int"), mk(sig.layout().W, "int"))
+        obs = I.instantiate(obscls, [shape], {})
+        host_row = NpArr(NpCell(z3.Const("row_src", A1), (sig.layout().W,), fresh=False))
+        I.call_function(I.find_member(obscls, "from_state")[1], [obs, st], {})
+        I.call_function(I.find_member(obscls, "update_from_host")[1], [obs, 0, host_row], {})
+        V.mark_preexisting(obs)
+        I.ctx.writes[:] = []
+        S = Scope(sig=sig)
+        S.a = {"self": obs}
+        S.call_args = ([obs], {})
+        return S
+
+    def snapshot(self, I, S):
+        S.old["O"] = S.a["self"].fields["tensor"].content()
+
+    def ensures(self, I, S):
+        r = S.result
+        return [("C09.flat-is-row-major-flattening-of-current-tensor", _flat_matches(r, S.old["O"])),
+                ("C10.flat-is-float32", z3.BoolVal(isinstance(r, NpArr) and r.cell.dtype == "float32"))]
